@@ -2182,7 +2182,7 @@ def _as_load(node):
 
 
 _BUILTIN_FUNCS = {
-    "len", "isinstance", "int", "str", "bool", "float", "min", "max", "abs", "round", "list", "sorted", "reversed",
+    "len", "isinstance", "issubclass", "int", "str", "bool", "float", "min", "max", "abs", "round", "list", "sorted", "reversed",
     "enumerate", "range", "iter", "next", "hasattr", "getattr", "super", "type", "sum", "any", "all", "repr", "ord",
     "tuple", "set", "dict", "map", "zip", "print", "id", "callable",
 }
